@@ -176,6 +176,21 @@ def task(arg):
             if not o['present']:
                 V('default-for-absent', 'an absent input produced a value', p)
                 ok = False
+            if name == 'SSNInput':
+                # the declared format of an SSN value (independent of valid()): exactly nine digits
+                v_ = o['value']
+                if isinstance(v_, bstr.BStr):
+                    fmt = tm.and_(tm.eq(v_.n, tm.I(9)), *[bstr.is_digit(v_.chars[k]) for k in range(min(9, v_.L))]) if v_.L >= 9 else tm.FALSE
+                    t0 = time.time()
+                    r, txt = witness(p, tm.not_(fmt))
+                    res['solver_s'] += time.time() - t0
+                    res['obl'].append(('%s/path%d/format' % (name, res['paths']), r, time.time() - t0))
+                    if r == 'sat':
+                        res['viol'].append({'key': '%s:value-not-in-format' % name, 'what': 'text %r is accepted but the value handed to the lines is not nine digits' % txt, 'text': txt, 'expect': 'value-not-in-format'})
+                        ok = False
+                elif not (isinstance(v_, str) and len(v_) == 9 and v_.isdigit()):
+                    V('value-not-in-format', 'accepted SSN value %r is not nine digits' % (v_,), p, expect='value-not-in-format')
+                    ok = False
         elif o['outcome'] == 'invalid':
             if o['valid'] is not False:
                 V('invalid-but-valid', 'InvalidInput raised for a text the validator accepts', p)
